@@ -183,6 +183,18 @@ impl<T> VersionChain<T> {
         self.versions.retain(|v| v.info.created_by != tx);
     }
 
+    /// Re-stamps the versions the given transaction created while it was open
+    /// (stamped [`EpochId::PENDING`]) with its commit epoch.
+    ///
+    /// Used at commit to publish the transaction's versions.
+    pub fn finalize_versions_by(&mut self, tx: TxId, commit_epoch: EpochId) {
+        for version in &mut self.versions {
+            if version.info.created_by == tx && version.info.created_epoch == EpochId::PENDING {
+                version.info.created_epoch = commit_epoch;
+            }
+        }
+    }
+
     /// Checks if there's a concurrent modification conflict.
     ///
     /// A conflict exists if another transaction modified this entity
